@@ -572,7 +572,7 @@ func main() {
 			b.Signers = append(b.Signers, i)
 		}
 		all = append(all, dispatch(c, b)...)
-		n := c.Scale(220, 5000)
+		n := c.Scale(140, 4000)
 		for i := 0; i < n; i++ {
 			all = append(all, dispatch(c, gen(c.Rng, kinds[c.Rng.Intn(len(kinds))]))...)
 		}
